@@ -558,7 +558,7 @@ def w_seq(item, rep):
     part = "seq-%s-%s" % (prof, "plus" if plus else "nonplus")
     rep.part(part, len1=stats[0], len2=stats[1], len3=stats[2], len3_merged=stats[3])
     if i0 == 3 and plus:
-        rep.sample({"part": part, "first": show(ctx.A[i0]), "sequences": sum(stats), "alphabet": len(ctx.A)})
+        rep.notes["S|0|" + part] = {"part": part, "first": show(ctx.A[i0]), "sequences": sum(stats[:3]), "alphabet": len(ctx.A)}
 
 
 def w_bfs(item, rep):
@@ -583,7 +583,7 @@ def w_bfs(item, rep):
     rep.part(part, transitions=rep.transitions - t0, states=rep.states - s0, depth=str(depth), roots=1)
     rep.nt("%s:%s:%d" % (part, i0, rep.states - s0))
     if i0 == idxs[0]:
-        rep.sample({"part": part, "alphabet": [show(ctx.A[i]) for i in idxs]})
+        rep.notes["S|1|" + part] = {"part": part, "alphabet": [show(ctx.A[i]) for i in idxs]}
 
 
 def finalize(rep):
@@ -603,6 +603,8 @@ def finalize(rep):
     for sig, c in sorted(best.items()):
         rep.violation(sig, c["what"], c["replay"])
         rep.violations[sig]["count"] += c["count"] - 1
+    for key in sorted(k for k in rep.notes if k.startswith("S|")):  # samples in a scheduling-independent order
+        rep.sample(rep.notes.pop(key))
 
 
 def run_setters(tier, seed, rep, cls_name="full", pid=PID, only=None):
